@@ -86,7 +86,11 @@ func (c cfg) opLine() string {
 	if flags == "" {
 		flags = "-"
 	}
-	return fmt.Sprintf("run %d %d %d %s %s %s %s %d", c.n, c.t, c.nv, c.alg, amts, c.ver, flags, c.sched)
+	line := fmt.Sprintf("run %d %d %d %s %s %s %s %d", c.n, c.t, c.nv, c.alg, amts, c.ver, flags, c.sched)
+	if c.km != "" {
+		line += " km=" + c.km
+	}
+	return line
 }
 
 func parseCfg(f []string) cfg {
@@ -102,6 +106,9 @@ func parseCfg(f []string) cfg {
 	c.comp = strings.Contains(f[7], "c")
 	c.noverify = strings.Contains(f[7], "x")
 	c.sched, _ = strconv.ParseUint(f[8], 10, 64)
+	if len(f) > 9 && strings.HasPrefix(f[9], "km=") {
+		c.km = strings.TrimPrefix(f[9], "km=")
+	}
 	return c
 }
 
@@ -109,6 +116,16 @@ func parseCfg(f []string) cfg {
 func configRefused(c cfg) bool {
 	if c.t < 2 || c.t > c.n {
 		return true
+	}
+	if c.km != "" { // keymanager mode: one import request per node; a node whose keymanager refuses it fails
+		if len(c.km) != c.n {
+			return true
+		}
+		for i := 0; i < len(c.km); i++ {
+			if kmRejects(c.km[i]) {
+				return true
+			}
+		}
 	}
 	if len(c.amts) > 0 {
 		sum, max := 0, 32
@@ -160,6 +177,16 @@ func main() {
 				return
 			}
 			ce.run()
+			if c.km != "" && len(c.km) == c.n {
+				d := ce.dir
+				if !ce.ok {
+					d = ce.failedDir
+				}
+				if d != "" {
+					ce.kmMonitors(run, d)
+				}
+				run.Count("run:keymanager")
+			}
 			if !ce.ok {
 				if !configRefused(c) {
 					sig := "dkgrun:ceremony_failed_error"
@@ -227,6 +254,54 @@ func main() {
 			lastProto = true
 			run.Case(fmt.Sprintf("%s:%d:%d:%d:%d:%v:%v", o.kind, cur.n, cur.t, ng.n, ng.t, o.ids, o.part))
 			run.Op(op, "ok")
+		case "append":
+			extra, _ := strconv.Atoi(f[1])
+			sched, _ := strconv.ParseUint(f[2], 10, 64)
+			run.Begin(op)
+			run.Count("append")
+			lastProto = false
+			// the code as it is: a lock of version v1.6.0 cannot be appended to either? (it can: Run clears the node signatures)
+			refused := appendRefused(extra)
+			ng, errs := ce.runAppend(cur, extra, sched)
+			if ng == nil {
+				if !refused {
+					sig := "dkgrun:ceremony_failed_error"
+					if timeoutClass(errs) {
+						sig = "dkgrun:ceremony_failed_timeout"
+					}
+					run.Violate(sig, fmt.Sprintf("%s on generation %d (n=%d t=%d validators=%d): %s", op, cur.idx, cur.n, cur.t, cur.nv, errsStr(errs)))
+				}
+				run.Count("append:err")
+				run.Op(op, "err")
+				return
+			}
+			if refused {
+				run.Violate("dkgrun:bad_request_not_refused", op)
+			}
+			if !ce.extendRefs(run, cur, ng) {
+				run.Op(op, "ok")
+				return
+			}
+			ce.appendMonitors(run, cur, ng)
+			gens = append(gens, ng)
+			lastProto = true
+			run.Case(fmt.Sprintf("append:%d:%d:%d:%d:gen%d", cur.n, cur.t, cur.nv, extra, cur.idx))
+			run.Op(op, "ok")
+		case "aval":
+			k, _ := strconv.Atoi(f[1])
+			if cur.idx == 0 || cur.appended == 0 || k < 0 || k >= cur.nv {
+				run.Op(op, "bad-op")
+				return
+			}
+			old := gens[len(gens)-2]
+			if k < old.nv && !old.valSeen[k] { // the model has no previous shares of k either
+				run.Op(op, "bad-op")
+				return
+			}
+			sks, out := ce.avalLine(run, old, cur, k)
+			cur.valSeen[k] = true
+			run.Count("aval")
+			run.Op(fmt.Sprintf("aval %d %s", k, sks), out)
 		case "nval", "nrec", "nsig", "part":
 			if cur.idx == 0 {
 				run.Op(op, "bad-op")
@@ -236,7 +311,7 @@ func main() {
 			k, _ := strconv.Atoi(f[1])
 			switch f[0] {
 			case "nval":
-				if !old.valSeen[k] { // an op list cut by the minimiser: the model has no previous shares either
+				if cur.appended > 0 || !old.valSeen[k] { // an op list cut by the minimiser: the model has no previous shares either
 					run.Op(op, "bad-op")
 					return
 				}
